@@ -73,6 +73,12 @@ CHECKS = {
         "text": "Gettsim.tla specifies that the result of a simulation call is a function of the content of its arguments only and that no call changes what the caller holds. TLC enumerates every history of set-up, in-place reform, simulate and make_vectorizable calls up to the bound; a stratified sample is replayed on the real rule base, one fresh interpreter per history, and each distinct call is also made first in two fresh interpreters with different hash seeds. TLC validates that every call's exact result digest equals its reference, that references agree, and that data (DataFrame and dict of Series needing conversion), parameters and functions have identical content digests before and after every call.",
         "note": "Histories up to 4 (thorough 5) calls over 2 dates, 2 populations, 2 target sets, 1 parameter group, 1 rule; sampled (24 quick / 240 thorough) of the enumerated histories; digests are exact bytes.",
     },
+    "C02": {
+        "level": "model_checking",
+        "technique": "reference partitions of Households.tla model-checked on two-household structures (units never cross households); TLC trace validation of simulate(A) against A++B, B++A, interleavings and relabelled runs on the real rule base (Trace_Sep)",
+        "text": "In the specification every result of a person is a function of the records connected to it and identifiers are labels; TLC proves on all two-household structures that the reference units stay inside households. On the real rule base pairs of dressed populations with disjoint ids are simulated alone, concatenated in both orders, interleaved, and under shift / reverse / sparse relabellings of p_id, hh_id and all pointer columns; TLC (Trace_Sep) requires identical values per person, the same partitions for derived ids and pointer-valued outputs equal modulo the relabelling, over all non-time-derived nodes.",
+        "note": "Identifiers bounded by 1e5 (group aggregation allocates max(id)+1 cells); pairs of populations are seeded samples; dtype-class flips caused by unrelated rows are recorded here and judged by C03.",
+    },
 }
 
 NOT_APPLICABLE = {}
